@@ -180,7 +180,7 @@ CHECK_SHAPE = [
     "declared = tuple((int(v) for v in self.input_shape))",
     "ok = x.ndim >= 2 and int(np.prod(x.shape[1:])) == self._get_input_size()",
     "if ok and len(declared) > 1:\n    ok = x.ndim == 2 or tuple(x.shape[1:]) == declared\n"
-    "elif ok and self.layer_order and (self.layer_order[0][0] != 'flatten'):\n    ok = x.ndim == 2",
+    "elif ok and (not (self.layer_order and self.layer_order[0][0] == 'flatten')):\n    ok = x.ndim == 2",
     "if not ok:\n    raise ValueError(f'expected a batch of samples of shape {declared}, got shape {tuple(x.shape)}')",
 ]
 SETUP_FN = [
